@@ -263,7 +263,7 @@ func RunRoute(row RouteRow, salt int) (diff string, observed string, envErr erro
 	if salt&16 != 0 || row.In.CCB != "none" {
 		addr = "<" + addr + ">"
 	}
-	cfg := &client.ClientConfig{Address: addr, Timeout: 3 * time.Second, Security: neverCfg()}
+	cfg := &client.ClientConfig{Address: addr, Timeout: 20 * time.Second, Security: neverCfg()}
 	if row.In.Empty {
 		cfg.Address = ""
 		if salt&1 != 0 {
@@ -277,30 +277,50 @@ func RunRoute(row RouteRow, salt int) (diff string, observed string, envErr erro
 	defer cancel()
 	done := make(chan error, 1)
 	go func() { done <- cl.Connect(ctx) }()
+	// Connect returns by itself (direct, shared port, error) or blocks on the silent broker
+	// (CCB): then its context is cancelled.  Afterwards the client is closed, so that the
+	// peers see EOF after everything the client said.
 	var cerr error
 	returned := false
-	deadline := time.Now().Add(2500 * time.Millisecond)
-	for time.Now().Before(deadline) {
-		if !returned {
-			select {
-			case cerr = <-done:
-				returned = true
-			default:
-			}
+	for w := 0; !returned; w++ {
+		select {
+		case cerr = <-done:
+			returned = true
+			continue
+		case <-time.After(2 * time.Millisecond):
 		}
-		if len(prim.Conns())+len(brok.Conns()) > 0 || returned {
-			break
+		if bc := brok.Conns(); len(bc) > 0 && len(bc[0].firstBytes()) >= 13 {
+			cancel() // the broker was asked: nothing more will come of it
 		}
+		if w > 30000 {
+			return "Connect did not return", "", nil
+		}
+	}
+	cancel()
+	_ = cl.Close()
+	// the connection of a successful Connect sits in the peer's accept queue at the latest now
+	for w := 0; cerr == nil && w < 20000 && len(prim.Conns())+len(brok.Conns()) == 0; w++ {
 		time.Sleep(time.Millisecond)
 	}
-	time.Sleep(60 * time.Millisecond) // first bytes
+	if cerr != nil {
+		time.Sleep(20 * time.Millisecond)
+	}
+	all := append(prim.Conns(), brok.Conns()...)
+	for _, oc := range all {
+		for w := 0; w < 5000 && !oc.sawEOF(); w++ {
+			time.Sleep(time.Millisecond)
+		}
+		if !oc.sawEOF() {
+			return "", "", fmt.Errorf("routing replay: the peer saw no EOF after the client was closed")
+		}
+	}
 	got := "error"
 	switch {
 	case len(brok.Conns()) > 0:
 		got = "ccb"
 		fb := brok.Conns()[0].firstBytes()
 		if len(fb) < 13 || int(binary.BigEndian.Uint64(fb[5:13])) != commands.DC_AUTHENTICATE {
-			got = "ccb?" // something else was said to the broker
+			got = fmt.Sprintf("broker got %x", fb)
 		}
 	case len(prim.Conns()) > 0:
 		fb := prim.Conns()[0].firstBytes()
@@ -313,15 +333,6 @@ func RunRoute(row RouteRow, salt int) (diff string, observed string, envErr erro
 			got = fmt.Sprintf("primary got %x", fb)
 		}
 	}
-	cancel()
-	if !returned {
-		select {
-		case cerr = <-done:
-		case <-time.After(10 * time.Second):
-			return "Connect did not return after its context was cancelled", got, nil
-		}
-	}
-	_ = cl.Close()
 	observed = fmt.Sprintf("%s (Connect: %v)", got, cerr)
 	if got != row.Route {
 		return fmt.Sprintf("address %q was routed %s, the table says %s", cfg.Address, got, row.Route), observed, nil
